@@ -99,6 +99,8 @@ impl TcpStreamConnect {
                 Err(e) => return Err(e),
             }
 
+            #[cfg(may_verif)]
+            may_queue::verif::point(may_queue::verif::site::IO_CONNECT_EAGAIN, 0);
             if self.io_data.io_flag.load(Ordering::Relaxed) != 0 {
                 continue;
             }
@@ -121,7 +123,11 @@ impl EventSource for TcpStreamConnect {
                 .get_selector()
                 .add_io_timer(&self.io_data, dur);
         }
+        #[cfg(may_verif)]
+        may_queue::verif::point(may_queue::verif::site::IO_CONNECT_SUB_ARMED, 0);
         io_data.co.store(co);
+        #[cfg(may_verif)]
+        may_queue::verif::point(may_queue::verif::site::IO_CONNECT_SUB_STORED, 0);
 
         // there is event, re-run the coroutine
         if io_data.io_flag.load(Ordering::Acquire) != 0 {
